@@ -882,7 +882,10 @@ impl LdapConnAsync {
                             4 | 25 => (SearchItem::Entry(protoop), false),
                             5 => (SearchItem::Done(Tag::StructureTag(protoop)), true),
                             19 => (SearchItem::Referral(protoop), false),
-                            _ => panic!("unrecognized op id: {}", protoop.id),
+                            _ => {
+                                warn!("unrecognized op id {} for search {}, ignored", protoop.id, id);
+                                continue;
+                            },
                         };
                         if let Err(e) = tx.send((item, controls)) {
                             warn!("ldap search item send error, op={}: {:?}", id, e);
